@@ -471,6 +471,21 @@ fn unit_double_decrement() -> WCase {
     }
 }
 
+/// miner_count is not part of the C02 statement (claims and totals are): the known double decrement
+/// of miner_count (process_deferred_cron_events: delete_claim answers Ok for an absent claim and the
+/// caller decrements again) is counted and kept as a replay in `extra`, not as a C02 monitor failure.
+fn emit(stats: &mut Stats, f: serde_json::Value) {
+    if f["class"] == "miner-count-double-decrement" {
+        let n = stats.extra.get("miner_count_double_decrement_observed").and_then(|x| x.as_u64()).unwrap_or(0);
+        stats.extra.insert("miner_count_double_decrement_observed".into(), serde_json::json!(n + 1));
+        if n == 0 {
+            stats.extra.insert("miner_count_double_decrement_example".into(), serde_json::json!({"step": f["step"], "op": f["op"], "what": f["what"]}));
+        }
+    } else {
+        stats.monitor_fail(f);
+    }
+}
+
 fn main() {
     let a = cf::parse_args();
     let mut stats = Stats::default();
@@ -481,7 +496,7 @@ fn main() {
         let pc: WCase = serde_json::from_value(v["case"].clone()).unwrap();
         let (c, _, fails) = run_case(&pc, &mut stats, None);
         cw.push(c);
-        for f in fails { stats.monitor_fail(f); }
+        for f in fails { emit(&mut stats, f); }
         cw.finish(&stats, "power");
         return;
     }
@@ -496,7 +511,7 @@ fn main() {
                 let pc: WCase = serde_json::from_value(v["case"].clone()).unwrap();
                 let (c, _, fails) = run_case(&pc, &mut stats, None);
                 cw.push(c);
-                for f in fails { stats.monitor_fail(f); }
+                for f in fails { emit(&mut stats, f); }
             }
         }
     }
@@ -522,7 +537,7 @@ fn main() {
             let _ = std::fs::write(dir.join("power_minercount_replay.json"), serde_json::to_string_pretty(f).unwrap());
         }
         cw.push(c);
-        for f in fails { stats.monitor_fail(f); }
+        for f in fails { emit(&mut stats, f); }
     }
     let mut root = Prng::new(a.seed);
     for k in 0..a.cases {
@@ -532,7 +547,7 @@ fn main() {
         let pc = WCase { min_power, ops: vec![] };
         let (c, _, fails) = run_case(&pc, &mut stats, Some((&mut r, a.len, double_case)));
         cw.push(c);
-        for f in fails { stats.monitor_fail(f); }
+        for f in fails { emit(&mut stats, f); }
     }
     cw.finish(&stats, "power");
 }
